@@ -73,24 +73,18 @@ end Spec
 
 /-! ### while flushing, a tick touches nothing but the control port -/
 
-theorem runPipeline_flushing (c : Cfg) (s : St) : (runPipeline c s).1.flushing = s.flushing := by
-  unfold runPipeline
-  have h1 := iterP_pres (P := fun s' => s'.flushing = s.flushing) (f := bottomUp c)
-    (fun s' hs => by rw [bottomUp_flushing]; exact hs) c.width (s, false) rfl
-  have h2 := iterP_pres (P := fun s' => s'.flushing = s.flushing) (f := parseBottom)
-    (fun s' hs => by rw [parseBottom_flushing]; exact hs) c.width _ h1
-  exact iterP_pres (P := fun s' => s'.flushing = s.flushing) (f := topDown c)
-    (fun s' hs => by rw [topDown_flushing]; exact hs) c.width _ h2
-
-/-- the part of the state a requester / lower level can observe or that holds transactions -/
-def St.traffic (s : St) : List TRsp × List (Req × BReq) × List TRsp × List BReq × List (Nat × Rsp) :=
-  (s.delivered, s.fwd, s.topOut, s.botOut, s.answered)
+/-- the logs a flushing tick leaves alone -/
+def St.traffic (s : St) : List TRsp × List (Req × BReq) × List (Nat × Rsp) :=
+  (s.delivered, s.fwd, s.answered)
 
 theorem processCtl_traffic (c : Cfg) (s : St) : (processCtl c s).1.traffic = s.traffic := by
   unfold processCtl
   repeat' split
   all_goals rfl
 
+/-- a tick that ends in the flushing state sends nothing up, forwards nothing, consumes no
+    lower-level response (and, since repair 7c2f5a70, leaves both outgoing buffers empty:
+    `flushing_tick_empties_outgoing`) -/
 theorem tick_flushing_silent (c : Cfg) (s : St) (h' : (tick c s).1.flushing = true) :
     (tick c s).1.traffic = s.traffic := by
   revert h'
@@ -104,8 +98,139 @@ theorem tick_flushing_silent (c : Cfg) (s : St) (h' : (tick c s).1.flushing = tr
       · intro _; exact processCtl_traffic c s
       · rename_i hfl
         intro h'
-        rw [runPipeline_flushing] at h'
-        exact absurd h' hfl
+        have h'' : (runPipeline c (processCtl c s).1).1.flushing = true := h'
+        rw [runPipeline_flushing] at h''
+        exact absurd h'' hfl
+
+/-! ### what enters / leaves the Top port's outgoing buffer -/
+
+/-- what enters the delivered log enters the Top port's outgoing buffer, and nothing else does -/
+def TopExt (s s' : St) : Prop := ∃ more, s'.delivered = s.delivered ++ more ∧ s'.topOut = s.topOut ++ more
+
+theorem TopExt.refl (s : St) : TopExt s s := ⟨[], by simp, by simp⟩
+
+theorem TopExt.trans {a b c : St} (h1 : TopExt a b) (h2 : TopExt b c) : TopExt a c := by
+  obtain ⟨m1, d1, t1⟩ := h1
+  obtain ⟨m2, d2, t2⟩ := h2
+  exact ⟨m1 ++ m2, by rw [d2, d1, List.append_assoc], by rw [t2, t1, List.append_assoc]⟩
+
+theorem bottomUp_top (c : Cfg) (s : St) : TopExt s (bottomUp c s).1 := by
+  unfold bottomUp
+  repeat' split
+  all_goals first
+    | exact TopExt.refl _
+    | exact ⟨_, rfl, rfl⟩
+
+theorem parseBottom_top (s : St) : TopExt s (parseBottom s).1 := by
+  unfold parseBottom
+  repeat' split
+  all_goals exact ⟨[], by simp, by simp⟩
+
+theorem topDown_top (c : Cfg) (s : St) : TopExt s (topDown c s).1 := by
+  unfold topDown
+  repeat' split
+  all_goals exact ⟨[], by simp, by simp⟩
+
+theorem processCtl_top (c : Cfg) (s : St) : TopExt s (processCtl c s).1 := by
+  unfold processCtl
+  repeat' split
+  all_goals exact ⟨[], by simp, by simp⟩
+
+theorem runPipeline_top (c : Cfg) (s : St) : TopExt s (runPipeline c s).1 := by
+  unfold runPipeline
+  have h1 := iterP_rel TopExt.refl (fun _ _ _ => TopExt.trans) (bottomUp_top c) c.width (s, false)
+  have h2 := iterP_rel TopExt.refl (fun _ _ _ => TopExt.trans) parseBottom_top c.width
+    (iterP (bottomUp c) c.width (s, false))
+  have h3 := iterP_rel TopExt.refl (fun _ _ _ => TopExt.trans) (topDown_top c) c.width
+    (iterP parseBottom c.width (iterP (bottomUp c) c.width (s, false)))
+  exact TopExt.trans (TopExt.trans h1 h2) h3
+
+/-- a tick either only appends to the Top port's outgoing buffer what it appends to the delivered
+    log, or (ending in the flushing state) empties that buffer and delivers nothing -/
+theorem tick_top (c : Cfg) (s : St) :
+    TopExt s (tick c s).1 ∨
+    ((tick c s).1.flushing = true ∧ (tick c s).1.delivered = s.delivered ∧ (tick c s).1.topOut = []) := by
+  unfold tick
+  split
+  · exact Or.inl (TopExt.refl _)
+  · simp only
+    split
+    · exact Or.inl (processCtl_top c s)
+    · split
+      · rename_i hfl
+        exact Or.inr ⟨hfl, congrArg (·.1) (processCtl_traffic c s), rfl⟩
+      · exact Or.inl (TopExt.trans (processCtl_top c s) (runPipeline_top c _))
+
+theorem tick_top_of_not_flushing (c : Cfg) (s : St) (h : (tick c s).1.flushing = false) :
+    TopExt s (tick c s).1 := by
+  rcases tick_top c s with h1 | ⟨h1, _⟩
+  · exact h1
+  · rw [h] at h1; cases h1
+
+/-- `σ'` is a later state: what the requester took in between and what still waits in the Top
+    port was waiting there at `σ` or was delivered in between -/
+def Taken (σ σ' : Sys) : Prop :=
+  ∃ taken no, σ'.out = σ.out ++ taken ∧ σ'.rob.delivered = σ.rob.delivered ++ no ∧
+    ∀ d ∈ taken ++ σ'.rob.topOut, d ∈ σ.rob.topOut ++ no
+
+theorem Taken.refl (σ : Sys) : Taken σ σ := ⟨[], [], by simp, by simp, by intro d hd; simpa using hd⟩
+
+theorem Taken.trans {a b c : Sys} (h1 : Taken a b) (h2 : Taken b c) : Taken a c := by
+  obtain ⟨t1, n1, o1, d1, m1⟩ := h1
+  obtain ⟨t2, n2, o2, d2, m2⟩ := h2
+  refine ⟨t1 ++ t2, n1 ++ n2, by rw [o2, o1, List.append_assoc], by rw [d2, d1, List.append_assoc], ?_⟩
+  intro d hd
+  have lift : ∀ x, x ∈ a.rob.topOut ++ n1 → x ∈ a.rob.topOut ++ (n1 ++ n2) := by
+    intro x hx
+    rcases List.mem_append.1 hx with hx | hx
+    · exact List.mem_append_left _ hx
+    · exact List.mem_append_right _ (List.mem_append_left _ hx)
+  rw [List.append_assoc] at hd
+  rcases List.mem_append.1 hd with hd | hd
+  · exact lift d (m1 d (List.mem_append_left _ hd))
+  · rcases List.mem_append.1 (m2 d hd) with hb | hn
+    · exact lift d (m1 d (List.mem_append_right _ hb))
+    · exact List.mem_append_right _ (List.mem_append_right _ hn)
+
+theorem sysStep_taken (c : Cfg) (σ : Sys) (e : Ev) : Taken σ (sysStep c σ e) := by
+  have same : ∀ σ' : Sys, σ'.out = σ.out → σ'.rob.delivered = σ.rob.delivered → σ'.rob.topOut = σ.rob.topOut →
+      Taken σ σ' := by
+    intro σ' h1 h2 h3
+    exact ⟨[], [], by simp [h1], by simp [h2], by intro d hd; simpa [h3] using hd⟩
+  cases e with
+  | tick =>
+    rcases tick_top c σ.rob with ⟨more, h1, h2⟩ | ⟨_, h1, h2⟩
+    · exact ⟨[], more, by simp [sysStep], h1, by
+        intro d hd
+        have : d ∈ (tick c σ.rob).1.topOut := by simpa [sysStep, step] using hd
+        rw [h2] at this; exact this⟩
+    · exact ⟨[], [], by simp [sysStep], by rw [List.append_nil]; exact h1, by
+        intro d hd
+        have : d ∈ (tick c σ.rob).1.topOut := by simpa [sysStep, step] using hd
+        rw [h2] at this; cases this⟩
+  | arrive q => apply same <;> first | rfl | (simp only [sysStep, step]; split <;> rfl)
+  | ctl x => apply same <;> first | rfl | (simp only [sysStep, step]; split <;> rfl)
+  | takeAck => exact same _ rfl rfl rfl
+  | memTake => apply same <;> first | rfl | (simp only [sysStep]; split <;> rfl)
+  | memAnswer j p =>
+    apply same <;> first
+      | rfl
+      | ((simp only [sysStep]; repeat' split) <;> first | rfl | (simp only [step]; split <;> rfl))
+  | takeRsp =>
+    simp only [sysStep]
+    cases hr : σ.rob.topOut with
+    | nil => simp only []; exact same _ rfl rfl rfl
+    | cons r rest =>
+      simp only []
+      refine ⟨[r], [], rfl, by simp [step], ?_⟩
+      intro d hd
+      simp only [step, hr, List.drop_one, List.tail_cons, List.singleton_append] at hd
+      rw [hr]; simpa using hd
+
+theorem sysFold_taken (c : Cfg) (evs : List Ev) (σ : Sys) : Taken σ (evs.foldl (sysStep c) σ) := by
+  induction evs generalizing σ with
+  | nil => exact Taken.refl _
+  | cons e es ih => exact (sysStep_taken c σ e).trans (ih _)
 
 /-! ### what the requester has taken only grows -/
 
